@@ -38,7 +38,9 @@ ALL_FEATURES = (
     "map",
     "defines",
     "code_lookup",
+    "branch_edges",
 )
+# "big_incbin" (a >64 KiB contiguous block) is opt-in: callers add it explicitly with a low probability.
 
 NAKED = "nop inx iny dex dey clc sec sei pha pla phx plx phy ply php plp tax tay txa tya xba xce inc dec asl lsr ror rol phb plb phd pld phk tcd tcs tdc tsc tsx txs txy tyx".split()
 IMM_BW = "lda ldx ldy cmp adc sbc and cpx cpy bit".split()  # .b and .w immediates
@@ -125,9 +127,16 @@ class Prog:
         self.defines: list[tuple[str, str]] = []
         self.global_labels: list[str] = []  # referenceable from top level (incl. scope.name)
         self.local_labels: list[str] = []  # defined in blocks (outside loops / macro bodies)
+        self.label_sites: list[tuple[str, bool, str | None]] = []  # (name, outside .for bodies, macro it sits in)
+        self.tainted_macros: list[str] = []  # macros applied from inside a .for body or another macro body
         self.table_addr: int | None = None  # logical address of the trailing label table
         self.features: list[str] = []
         self.unmapped_addr = 0
+
+    def symfile_label_names(self) -> list[str]:
+        """Label names all of whose definition sites lie outside loop iterations."""
+        bad = {n for n, outside, macro in self.label_sites if not outside or (macro is not None and macro in self.tainted_macros)}
+        return sorted({n for n, _o, _m in self.label_sites} - bad)
 
     # -- materialisation
     def source_files(self) -> dict[str, bytes]:
@@ -158,6 +167,8 @@ class Prog:
             "defines": [list(d) for d in self.defines],
             "global_labels": self.global_labels,
             "local_labels": self.local_labels,
+            "label_sites": [list(x) for x in self.label_sites],
+            "tainted_macros": self.tainted_macros,
             "table_addr": self.table_addr,
             "features": self.features,
             "unmapped_addr": self.unmapped_addr,
@@ -174,6 +185,8 @@ class Prog:
         p.defines = [tuple(d) for d in r["defines"]]  # type: ignore[misc]
         p.global_labels = r["global_labels"]
         p.local_labels = r["local_labels"]
+        p.label_sites = [tuple(x) for x in r.get("label_sites", [])]  # type: ignore[misc]
+        p.tainted_macros = list(r.get("tainted_macros", []))
         p.table_addr = r["table_addr"]
         p.features = r["features"]
         p.unmapped_addr = r.get("unmapped_addr", 0)
@@ -182,6 +195,31 @@ class Prog:
 
 # ---------------------------------------------------------------------------
 # slots
+
+
+def recompute_assembled(prog: Prog) -> None:
+    """A macro body is assembled iff the macro is applied from an assembled context (fixpoint)."""
+
+    def walk(nodes: list[Node], asm: bool, applied_prev: set[str], applied: set[str]) -> None:
+        for n in nodes:
+            if n["k"] == "apply" and asm:
+                applied.add(n["t"].split("(")[0].strip())
+            if "body" in n:
+                if n["k"] == "macro_def" and "macro" in n:
+                    n["assembled"] = n["macro"] in applied_prev
+                walk(n["body"], asm and bool(n.get("assembled", True)), applied_prev, applied)
+                if n.get("else_body") is not None:
+                    walk(n["else_body"], asm and bool(n.get("else_assembled", False)), applied_prev, applied)
+
+    prev: set[str] = set()
+    for _ in range(8):
+        cur: set[str] = set()
+        walk(prog.root, True, prev, cur)
+        for nodes in prog.inc_roots.values():
+            walk(nodes, True, prev, cur)
+        if cur == prev:
+            break
+        prev = cur
 
 
 def iter_slots(prog: Prog) -> Iterator[dict[str, Any]]:
@@ -203,6 +241,7 @@ def iter_slots(prog: Prog) -> Iterator[dict[str, Any]]:
                     ea = assembled and bool(n.get("else_assembled", False))
                     yield from walk(file, n["else_body"], path + [(i, "else_body")], ea, n["k"] + "_else", False)
 
+    recompute_assembled(prog)
     yield from walk("main.s", prog.root, [], True, "top", True)
     for rel in sorted(prog.inc_roots):
         yield from walk(rel, prog.inc_roots[rel], [], True, "included_file", True)
@@ -311,6 +350,13 @@ class Gen:
             if 1 <= v <= 4:
                 self.small_assigned.append(name)
         self.budget = 0
+        self.cur_for = 0
+        self.cur_macro: str | None = None
+        self.body_names: list[set[str]] = [set()]
+        self.edges = 0
+
+    def note_label(self, name: str) -> None:
+        self.prog.label_sites.append((name, self.cur_for == 0, self.cur_macro))
 
     def uid(self) -> int:
         self.n += 1
@@ -426,6 +472,7 @@ class Gen:
     def branch_chunk(self) -> list[Node]:
         rng = self.rng
         lbl = f"k{self.uid()}"
+        self.note_label(lbl)
         inner = [self.plain_instr() for _ in range(rng.randrange(0, 5))]
         br = stmt(f"{rng.choice(BRANCHES)} {lbl}")
         if rng.random() < 0.5:
@@ -445,8 +492,10 @@ class Gen:
         rng = self.rng
         out: list[Node] = []
         n = want if want is not None else rng.randrange(1, 5)
+        self.body_names.append(set())
         for _ in range(n):
             out += self.statement(depth, in_loop_or_macro, params)
+        self.body_names.pop()
         return out
 
     def statement(self, depth: int, in_lm: bool, params: list[str] | None = None) -> list[Node]:
@@ -460,8 +509,9 @@ class Gen:
             choices.append(("comment", 1.0))
         if "branches" in f:
             choices.append(("branch", 1.5))
-        if not in_lm:
-            choices.append(("label", 1.5))
+        choices.append(("label", 1.5 if not in_lm else 0.7))
+        if "branch_edges" in f and self.edges < 2 and depth <= 1:
+            choices.append(("branch_edge", 0.5))
         if "symbols" in f:
             choices.append(("assign", 1.0))
             if depth == 0:
@@ -505,13 +555,28 @@ class Gen:
         if kind == "branch":
             return self.branch_chunk()
         if kind == "label":
-            name = f"L{self.uid()}"
-            if depth == 0:
+            if depth == 0 and not in_lm:
+                name = f"L{self.uid()}"
                 self.globals.append(name)
                 self.prog.global_labels.append(name)
             else:
+                # local labels reuse a small pool of names across blocks / scopes / macro bodies
+                free = [n for n in ("loc0", "loc1", "loc2", "loc3") if n not in self.body_names[-1]]
+                name = rng.choice(free) if free and rng.random() < 0.8 else f"L{self.uid()}"
+                self.body_names[-1].add(name)
                 self.prog.local_labels.append(name)
+            self.note_label(name)
             return [stmt(f"{name}:", "label")]
+        if kind == "branch_edge":
+            # a short branch at the very edge of its range: +127 forward, -128 backward (both valid)
+            self.edges += 1
+            lbl = f"e{self.uid()}"
+            self.note_label(lbl)
+            op = rng.choice(BRANCHES)
+            words = ", ".join(["0"] * 63)
+            if rng.random() < 0.5:
+                return [stmt(f"{op} {lbl}"), stmt(f".dw {words}\n.db 0", "filler"), stmt(f"{lbl}:", "label")]
+            return [stmt(f"{lbl}:", "label"), stmt(f".dw {words}", "filler"), stmt(f"{op} {lbl}")]
         if kind == "assign":
             name = f"A{self.uid()}"
             if rng.random() < 0.4:
@@ -561,7 +626,9 @@ class Gen:
             else:
                 hi = lo + rng.choice([0, 1, 2, 3])
                 iters = hi - lo
+            self.cur_for += 1
             body = self.body(depth + 1, True, (params or []) + [var], want=rng.randrange(1, 4))
+            self.cur_for -= 1
             return [block(f".for {var} := {lo}, {hi} {{", body, "for", assembled=iters >= 1)]
         if kind == "apply":
             name, nparams = rng.choice(self.macros)
@@ -577,6 +644,8 @@ class Gen:
                 else:
                     args.append(self.lit(8))
             self.applied.add(name)
+            if (self.cur_for > 0 or self.cur_macro is not None) and name not in self.prog.tainted_macros:
+                self.prog.tainted_macros.append(name)
             return [stmt(f"{name}({', '.join(args)})", "apply")]
         if kind == "code_lookup":
             name = f"cb{self.uid()}"
@@ -589,6 +658,7 @@ class Gen:
             labels = []
             for _ in range(rng.randrange(1, 3)):
                 l = f"s{self.uid()}"
+                self.note_label(l)
                 labels.append(l)
                 inner.append(stmt(f"{l}:", "label"))
                 inner += self.body(1, False, None, want=rng.randrange(1, 3))
@@ -600,7 +670,9 @@ class Gen:
             name = f"m{self.uid()}"
             nparams = rng.randrange(0, 3)
             params2 = [f"p{self.uid()}" for _ in range(nparams)]
+            self.cur_macro = name
             body = self.body(1, True, params2 or None, want=rng.randrange(1, 4))
+            self.cur_macro = None
             self.macros.append((name, nparams))
             node = block(f".macro {name}({', '.join(params2)}) {{", body, "macro_def", assembled=False)
             node["macro"] = name
@@ -682,19 +754,36 @@ class Gen:
                     inc_nodes += nodes
                 prog.inc_roots[rel] = inc_nodes
                 root.append(stmt(f".include '{rel}'", "include"))
-            if "reloc" in f and self.mapping != "low2" and not use_map and rng.random() < 0.3:
-                ram = 0x7E0000 + rng.choice([0x2000, 0x4000, 0xFF00])
+            if "reloc" in f and not use_map and rng.random() < 0.4:
+                # '@=' changes only the logical address: following code is stored contiguously but assembled
+                # to run elsewhere - in RAM, or at another ROM address (no branches after it in this section)
+                if self.mapping != "low2" and rng.random() < 0.5:
+                    target = 0x7E0000 + rng.choice([0x2000, 0x4000, 0xFF00])
+                elif self.mapping == "high":
+                    target = (rng.choice([0x40, 0x41, 0xC0, 0xC5]) << 16) | rng.choice([0x0100, 0x8100, 0x9000])
+                elif self.mapping == "low":
+                    target = (rng.choice([0x00, 0x02, 0x80, 0x85]) << 16) | rng.choice([0x8100, 0x9000, 0xC000])
+                else:
+                    target = (rng.choice([0x80, 0x82, 0x85]) << 16) | rng.choice([0x8100, 0x9000, 0xC000])
                 lbl = f"R{self.uid()}"
                 self.globals.append(lbl)
-                root += [stmt(f"@={ram:#x}", "ateq"), stmt(f"{lbl}:", "label"), stmt(f".dw {self.lit(16)}"), stmt(f".pointer {lbl}")]
-        # mark applied macros' bodies as assembled
-        for n in root:
-            if n["k"] == "macro_def" and n.get("macro") in self.applied:
-                n["assembled"] = True
-        for nodes in prog.inc_roots.values():
-            for n in nodes:
-                if n["k"] == "macro_def" and n.get("macro") in self.applied:
-                    n["assembled"] = True
+                self.note_label(lbl)
+                root += [stmt(f"@={target:#x}", "ateq"), stmt(f"{lbl}:", "label"), stmt(f".dw {self.lit(16)}")]
+                root += [self.plain_instr() for _ in range(rng.randrange(0, 3))]
+                root += [stmt(f".pointer {lbl}"), self.plain_instr()]
+        if "big_incbin" in f and not use_map:
+            # one contiguous block of more than 64 KiB (spills over the following banks)
+            size = rng.choice([65535, 65536, 65537, 70000, 131071, 131077])
+            units = size // 0x8000 + 2
+            bank = self.pick_bank_run(units)
+            if bank is not None:
+                start = 0x8000 if self.mapping != "high" else 0x0000
+                rel = f"{self.prefix}big.bin"
+                prog.files[rel] = random.Random(rng.getrandbits(32)).randbytes(size)
+                prog.roles[rel] = "incbin"
+                root.append(stmt(f"*={(bank << 16) | start:#08x}", "stareq"))
+                root.append(stmt(f".incbin '{rel}'", "incbin"))
+                root.append(stmt(".db 0x42"))
         # trailing label table: lets an oracle read label values out of the emitted bytes
         if prog.global_labels:
             bank = self.pick_section_bank(far)
@@ -705,7 +794,27 @@ class Gen:
             for name in prog.global_labels:
                 root.append(stmt(f".dl {name}", "label_table"))
         prog.unmapped_addr = self.unmapped()
+        recompute_assembled(prog)
         return prog
+
+    def pick_bank_run(self, units: int) -> int | None:
+        """A bank followed by enough free 32 KiB units for a large contiguous block."""
+        if self.mapping == "high":
+            cands = [0x44, 0x48, 0xC4, 0xC8]
+        elif self.mapping == "low":
+            cands = [0x10, 0x20, 0x90, 0xA0]
+        else:
+            cands = [0x90, 0xA0, 0xB0]
+        self.rng.shuffle(cands)
+        for b in cands:
+            first = phys(self.mapping, (b << 16) | 0x8000) >> 15
+            if self.mapping == "high":
+                first = phys(self.mapping, b << 16) >> 15
+            keys = set(range(first, first + units + 1))
+            if not keys & self.used_banks:
+                self.used_banks |= keys
+                return b
+        return None
 
     def pick_section_bank(self, far: bool) -> int:
         if self._custom_banks is not None:
